@@ -178,6 +178,23 @@ func c20ServeProp(t *testing.T, k *verifkit.Kit) func(c c20Serve) error {
 		}
 		defer n.Close()
 
+		// The notifications are read while the server runs: a datagram socket
+		// queues only a few messages (net.unix.max_dgram_qlen), and a server
+		// with many tasks would otherwise block in sendmsg, outside of the
+		// bubble's control.
+		var notes []string
+		readerDone := make(chan struct{})
+		go func() {
+			defer close(readerDone)
+			buf := make([]byte, 4096)
+			for {
+				nn, _, err := pc.ReadFrom(buf)
+				if err != nil {
+					return
+				}
+				notes = append(notes, string(buf[:nn]))
+			}
+		}()
 		var (
 			mu       sync.Mutex
 			evlog    []c20Log
@@ -215,19 +232,12 @@ func c20ServeProp(t *testing.T, k *verifkit.Kit) func(c c20Serve) error {
 			case <-time.After(10 * time.Minute):
 			}
 		})
+		// everything sent is queued in the socket by now (sends are synchronous):
+		// the reader drains it and then runs into the deadline
+		_ = pc.SetReadDeadline(time.Now().Add(20 * time.Millisecond))
+		<-readerDone
 		if pan != nil {
 			return verifkit.Violf("panic", "panic in bubble: %v", pan)
-		}
-		// drain the notifications
-		var notes []string
-		buf := make([]byte, 4096)
-		for {
-			_ = pc.SetReadDeadline(time.Now().Add(5 * time.Millisecond))
-			nn, _, err := pc.ReadFrom(buf)
-			if err != nil {
-				break
-			}
-			notes = append(notes, string(buf[:nn]))
 		}
 		mu.Lock()
 		defer mu.Unlock()
@@ -395,8 +405,21 @@ func c20GenServe(t *rapid.T) c20Serve {
 	s := int64(time.Second)
 	var c c20Serve
 	times := []int64{1, s, 2 * s, 2*s + 1, 5 * s, 10 * s}
-	for i, n := 0, rapid.IntRange(1, 6).Draw(t, "ntasks"); i < n; i++ {
+	ntasks := rapid.IntRange(1, 6).Draw(t, "ntasks")
+	many := rapid.IntRange(0, 7).Draw(t, "manytasks") == 0
+	if many {
+		// as many tasks as a router with many VLAN interfaces has; most of them behave
+		ntasks = rapid.SampledFrom([]int{9, 16, 17, 31, 33, 63, 64, 65, 66, 100, 130}).Draw(t, "ntasksmany")
+	}
+	for i, n := 0, ntasks; i < n; i++ {
 		var tk c20Task
+		if many && rapid.IntRange(0, 19).Draw(t, "plain") != 0 {
+			if rapid.IntRange(0, 9).Draw(t, "plainready") == 0 {
+				tk.ReadyNS = rapid.SampledFrom(times).Draw(t, "plainreadyat")
+			}
+			c.Tasks = append(c.Tasks, tk)
+			continue
+		}
 		switch rapid.IntRange(0, 5).Draw(t, "behaviour") {
 		case 0:
 			tk.FailNS = rapid.SampledFrom(times).Draw(t, "fail")
@@ -444,7 +467,11 @@ func c20Matrix(yield func(c20Serve) bool) {
 }
 
 func c20GenBuild(t *rapid.T) c20Build {
-	return c20Build{Modes: rapid.SliceOfN(rapid.IntRange(0, 2), 0, 8).Draw(t, "modes"),
+	maxIfaces := 8
+	if rapid.IntRange(0, 7).Draw(t, "manyifaces") == 0 {
+		maxIfaces = 130
+	}
+	return c20Build{Modes: rapid.SliceOfN(rapid.IntRange(0, 2), (maxIfaces-8)/2, maxIfaces).Draw(t, "modes"),
 		Debug: rapid.SampledFrom([]string{"", "", "localhost:9430", ":0"}).Draw(t, "debug")}
 }
 
